@@ -10,7 +10,7 @@ from __future__ import annotations
 
 import ast
 
-from ..core.terms import (c, evaluate, fn_name, kw, make_inliner, n, pretty, subterms)
+from ..core.terms import (cmp_, not_, pc, phi_, c, evaluate, fn_name, kw, make_inliner, n, pretty, subterms)
 from .common import is_call, method, short
 
 MODEL = "liesel.model.model"
@@ -56,8 +56,8 @@ def check(ctx):
         # ---- R3
         ok_f = (len(forwarded) == 1 and forwarded[0][0][2]
                 and is_call(forwarded[0][0][2][0], f"{NODES}.TransientIdentity")
-                and forwarded[0][0][2][0][2] == (user,)
-                and kw(forwarded[0][0][2][0], "_name") == c(NAMES[key])
+                and forwarded[0][0][2][0][2][:1] == (user,)
+                and kw(forwarded[0][0][2][0], "_name", 1) == c(NAMES[key])
                 and any((user, True) in rc for rc, _, _ in r.returns))
         ctx.ob("C02.R3", fi, f"a user-supplied {user_attr} is wrapped in a TransientIdentity "
                              f"named '{NAMES[key]}' and no default node is built", ok_f,
@@ -123,7 +123,7 @@ def check(ctx):
             v = r.ret()
         lp = ("call", ("a", ("call", ("a", SELF, "init_dist"), (), ()), "log_prob"),
               (("a", ("a", SELF, "at"), "value"),), ())
-        cond_sum = ("bool", "and", (("u", "not", ("a", SELF, "per_obs")),
+        cond_sum = ("bool", "and", (not_(("a", SELF, "per_obs")),
                                     ("call", ("n", "hasattr"), (lp, c("sum")), ())))
         want = ("phi", cond_sum, ("call", ("a", lp, "sum"), (), ()), lp)
         vv = v
